@@ -2,6 +2,7 @@
 from __future__ import annotations
 
 import itertools
+import math
 
 import torch
 
@@ -13,13 +14,16 @@ EXPLANATION = (
     "executed with every entry symbolic for all 9 ordered pairs of operand forms and batch shapes {none, 1, N=2}; euler_rotation_matrix for "
     "all 27 letter orders (and 'Rz o Rx o Rz' notation) is compared with the product of elementary rotations built in the harness and shown "
     "orthogonal with determinant 1 (sin/cos as uninterpreted atoms with sin^2+cos^2=1 instantiated); quaternion conversions are decided "
-    "algebraically (sqrt as r>=0 & r*r=x); euler_rotation_order is explored by CrossHair over symbolic order strings; parameter "
-    "getters/setters of the linear transforms round-trip through the inverse-function axioms."
+    "algebraically (sqrt as r>=0 & r*r=x); euler_rotation_order is called with every order string of the finite domain (27 letter orders, "
+    "12 in 'R? o R? o R?' notation); the parameter getters / setters of the linear transforms (offset, angles, scales, quaternion, matrix) "
+    "are executed with symbolic values, held as optimisable parameter and as plain tensor: set(a); get() == a and the transform's matrix is "
+    "the one a denotes (tanh/atanh and exp/log cancel by rewriting on their domains)."
 )
 ASSUMPTIONS = [
     "sin, cos, tanh, atanh, exp, log are uninterpreted functions constrained only by the instantiated axioms listed under axioms_used",
     "rotation_matrix_to_quaternion is called with eps=0 (the default eps=1e-8 makes the round trip approximate by construction)",
-    "angle-axis conversions and euler_rotation_angles (atan2/acos) are not decided: outside what this technique reaches",
+    "angle-axis conversions and euler_rotation_angles (atan2/acos), hence EulerRotation.matrix_(R) and QuaternionRotation.matrix_(R) with the default eps, are not decided: outside what this technique reaches",
+    "accessor values inside the representable ranges: |angle| < 3 < pi, |shear angle| < 0.75 < pi/4, scales in (0.5, 2) within (1/e, e)",
 ]
 BOUNDS = {"quick": dict(D=[2, 3], batch=["none", 1, 2], points=2, orders=27), "thorough": dict(D=[2, 3], batch=["none", 1, 2], points=2, orders=27, notations=2)}
 
@@ -207,6 +211,53 @@ def ob_quaternion_roundtrip(ctx, branch):
     ctx.eq((p * p).sum().reshape(1), torch.ones(1), f"[{branch}] quaternion from matrix has unit norm")
 
 
+def ob_accessors(ctx, name, D, held):
+    """Parameter getters / setters of the linear transforms: set(a) then get() returns a, and the transform's matrix is the
+    one the value denotes (squashing by tanh / exp and its inverse cancel)."""
+    import deepali.spatial as S
+    import deepali.core.functional as U
+    from deepali.core.linalg import quaternion_to_rotation_matrix
+
+    g = geom.concrete_grid(D, ctx.seed, 0, sizes=(4, 3) if D == 2 else (3, 3, 2))
+    na = 1 if D == 2 else 3
+    t = getattr(S, name)(g, params=True if held == "param" else torch.zeros((1,) + tuple(getattr(S, name)(g, params=False).data_shape)))
+    if name == "Translation":
+        a = ctx.reals("a", [[0.25, -0.5, 0.125][:D]], nice=(-2, 2))
+        t.offset_(a)
+        ctx.eq(t.offset(), a, f"{name}[{held}]: offset_(a); offset() == a")
+        ctx.eq(t.tensor()[0, :, -1], a[0], f"{name}[{held}]: matrix translation column == a")
+    elif name == "EulerRotation":
+        a = ctx.reals("a", [[0.5, -0.25, 0.75][:na]], gt=-3.0, lt=3.0, nice=(-3, 3))
+        t.angles_(a)
+        ctx.eq(t.angles(), a, f"{name}[{held}]: angles_(a); angles() == a")
+        ctx.eq(t.tensor(), U.euler_rotation_matrix(a, order=t.order), f"{name}[{held}]: matrix == euler_rotation_matrix(a)")
+    elif name == "Shearing":
+        a = ctx.reals("a", [[0.25, -0.125, 0.5][:na]], gt=-0.75, lt=0.75, nice=(-0.75, 0.75))
+        t.angles_(a)
+        ctx.eq(t.angles(), a, f"{name}[{held}]: angles_(a); angles() == a")
+        ctx.eq(t.tensor(), U.shear_matrix(a), f"{name}[{held}]: matrix == shear_matrix(a)")
+    elif name in ("IsotropicScaling", "AnisotropicScaling"):
+        n = 1 if name == "IsotropicScaling" else D
+        a = ctx.reals("a", [[1.25, 0.75, 1.5][:n]], gt=0.5, lt=2.0, nice=(0.5, 2.0))
+        t.scales_(a)
+        ctx.eq(t.scales(), a, f"{name}[{held}]: scales_(a); scales() == a")
+        ctx.eq(torch.diagonal(t.tensor()[0, :D, :D]), a[0].expand(D), f"{name}[{held}]: matrix diagonal == a")
+    elif name == "QuaternionRotation":
+        q = ctx.reals("q", [[1.0, 0.25, -0.5, 0.125]], nice=(-2, 2))
+        ctx.assume_cmp((q * q).sum(), ">=", 0.25)
+        t.quaternion_(q)
+        u = t.quaternion()
+        for i in range(1, 4):
+            ctx.eq(u[0, i] * q[0, 0], u[0, 0] * q[0, i], f"{name}[{held}]: quaternion() parallel to q ({i})")
+        ctx.eq((u * u).sum().reshape(1), torch.ones(1), f"{name}[{held}]: quaternion() has unit norm")
+        ctx.eq(t.tensor(), quaternion_to_rotation_matrix(q), f"{name}[{held}]: matrix == matrix(q)")
+    elif name == "HomogeneousTransform":
+        m = ctx.reals("m", [[[1.0 if i == j else 0.125 * (i - j) for j in range(D)] + [0.25 * (i + 1)] for i in range(D)]], nice=(-2, 2))
+        t.matrix_(m)
+        ctx.eq(t.tensor(), m, f"{name}[{held}]: matrix_(m); tensor() == m")
+        ctx.eq(t.matrix(), m, f"{name}[{held}]: matrix() == m")
+
+
 def obligations(tier: str, seed: int):
     obs = []
     for D in (2, 3):
@@ -235,4 +286,10 @@ def obligations(tier: str, seed: int):
         obs.append((f"quaternion-matrix{'-batch' if b else ''}", ob_quaternion, dict(batched=b)))
     for br in ("trace", "x", "y", "z"):
         obs.append((f"quaternion-roundtrip-{br}", ob_quaternion_roundtrip, dict(branch=br)))
+    for name in ("Translation", "EulerRotation", "Shearing", "IsotropicScaling", "AnisotropicScaling", "QuaternionRotation", "HomogeneousTransform"):
+        for D in (2, 3):
+            if name == "QuaternionRotation" and D == 2:
+                continue
+            for held in ("param", "tensor"):
+                obs.append((f"accessors-{name}-D{D}-{held}", ob_accessors, dict(name=name, D=D, held=held)))
     return obs
